@@ -188,22 +188,12 @@ func (fst *FSTree) Query(q *query.Query, local, internal bool) (*iterator.Iterat
 	if err != nil {
 		return nil, err
 	}
-	fileInfo, err := os.Stat(walkPrefix)
-	var walkRoot string
-	switch {
-	case err == nil && fileInfo.IsDir():
-		walkRoot = walkPrefix
-	case err == nil:
+	// A key prefix is not a path: it may end within a path segment. Walk the
+	// deepest directory that holds all keys with the prefix, the query
+	// executor then filters by key prefix.
+	walkRoot := walkPrefix
+	if walkPrefix != fst.basePath && !strings.HasSuffix(q.DatabaseKeyPrefix(), "/") {
 		walkRoot = filepath.Dir(walkPrefix)
-	case errors.Is(err, fs.ErrNotExist):
-		walkRoot = filepath.Dir(walkPrefix)
-	default: // err != nil
-		return nil, fmt.Errorf("fstree: could not stat query root %s: %w", walkPrefix, err)
-	}
-	// Never start the walk above the base path: if the base path itself is
-	// missing or not a directory, its parent is not ours to list.
-	if !fst.inScope(walkRoot) {
-		walkRoot = fst.basePath
 	}
 
 	queryIter := iterator.New()
@@ -215,6 +205,10 @@ func (fst *FSTree) Query(q *query.Query, local, internal bool) (*iterator.Iterat
 func (fst *FSTree) queryExecutor(walkRoot string, queryIter *iterator.Iterator, q *query.Query, local, internal bool) {
 	err := filepath.Walk(walkRoot, func(path string, info os.FileInfo, err error) error {
 		if err != nil {
+			if errors.Is(err, fs.ErrNotExist) {
+				// Nothing is stored below this path (anymore).
+				return nil
+			}
 			return fmt.Errorf("fstree: error in walking fs: %w", err)
 		}
 
@@ -232,6 +226,16 @@ func (fst *FSTree) queryExecutor(walkRoot string, queryIter *iterator.Iterator, 
 			return nil
 		}
 
+		// get key and check it against the key prefix of the query
+		key, err := filepath.Rel(fst.basePath, path)
+		if err != nil {
+			return fmt.Errorf("fstree: failed to extract key from filepath %s: %w", path, err)
+		}
+		key = filepath.ToSlash(key)
+		if !q.MatchesKey(key) {
+			return nil
+		}
+
 		// read file
 		data, err := os.ReadFile(path)
 		if err != nil {
@@ -242,10 +246,6 @@ func (fst *FSTree) queryExecutor(walkRoot string, queryIter *iterator.Iterator, 
 		}
 
 		// parse
-		key, err := filepath.Rel(fst.basePath, path)
-		if err != nil {
-			return fmt.Errorf("fstree: failed to extract key from filepath %s: %w", path, err)
-		}
 		r, err := record.NewRawWrapper(fst.name, key, data)
 		if err != nil {
 			return fmt.Errorf("fstree: failed to load file %s: %w", path, err)
